@@ -24,6 +24,27 @@ def findings():
 def main():
     fixed, known = findings()
     out = []
+    man = json.load(open(os.path.join(VERIF, 'MANIFEST.json')))
+    sq = os.path.join(VERIF, 'mc', 'summary_quick.json')
+    st = os.path.join(VERIF, 'mc', 'summary_thorough.json')
+    Q = json.load(open(sq)) if os.path.exists(sq) else {}
+    T = json.load(open(st)) if os.path.exists(st) else {}
+    out.append('### 7.1 As built: bounds actually completed (measured by `mc/run_all.py`, 16 workers)\n')
+    out.append('| property | level | quick: evaluations / distinct non-trivial | quick: states / transitions / depth | quick wall | thorough: evaluations / distinct non-trivial | thorough: states / transitions / depth | thorough wall | exhaustive within bounds |')
+    out.append('|---|---|---|---|---|---|---|---|---|')
+
+    def stt(x):
+        if not x or not x.get('states'):
+            return '-'
+        return '%s / %s / %s' % (x.get('states'), x.get('transitions'), x.get('max_depth_completed'))
+    for c in man['checks']:
+        pid = c['property_id']
+        q, t = Q.get(pid, {}), T.get(pid, {})
+        out.append('| %s | %s | %s / %s | %s | %s s | %s / %s | %s | %s s | %s |' % (
+            pid, c['level_claimed']['category'], q.get('evaluations', '?'), q.get('distinct_nontrivial', '?'), stt(q), q.get('wall_s', '?'),
+            t.get('evaluations', '?'), t.get('distinct_nontrivial', '?'), stt(t), t.get('wall_s', '?'),
+            'quick %s, thorough %s' % (q.get('exhaustive', '?'), t.get('exhaustive', '?'))))
+    out.append('')
     out.append('### 8.1 Genuine defects repaired in /repo (one unguarded `fix:` commit each)\n')
     out.append('| property | commit | what failed on the unchanged tree |')
     out.append('|---|---|---|')
